@@ -27,6 +27,7 @@ KNOWN_SIGNATURES = [
 # KNOWN_FINDINGS.json lists them (matched on the `id` field); otherwise they are skipped silently
 FINDING_D8 = "D8-bc_iter-without-face-incidences"
 FINDING_D11 = "D11-step-back-from-end-stays-invalid"
+FINDING_D15 = "D15-cf_iter-back-from-begin-then-forward"
 
 def _listed(pid, fid):
     for f in fw.known_findings(pid):
@@ -114,8 +115,8 @@ def known_signature(msg):
 def judge_queries(ctx, qr, oracles=("C05",)):
     """fills ctx from a QueryRun: oracle failures of the given oracles are violations with the script as replay,
     a crash on a Query is a violation, a model/impl difference breaks the correspondence."""
-    d8, d11 = _listed(ctx.id, FINDING_D8), _listed(ctx.id, FINDING_D11)
-    d8_seen = d11_seen = False
+    d8, d11, d15 = _listed(ctx.id, FINDING_D8), _listed(ctx.id, FINDING_D11), _listed(ctx.id, FINDING_D15)
+    d8_seen = d11_seen = d15_seen = False
     suppressed = {}
     for of in qr.oracle_fails:
         why = known_signature(of["what"])
@@ -136,24 +137,31 @@ def judge_queries(ctx, qr, oracles=("C05",)):
         if c["script"].startswith(FINDING_D8) and "QueryBC" in c["op"]:
             d8_seen = True
             continue
+        if c["script"].startswith(FINDING_D15) and "QueryCF" in c["op"]:
+            d15_seen = True
+            continue
         ctx.violations.append({"kind": "input", "oracle": "sanitizer", "script_name": c["script"], "first_bad_step": c["step"],
                                "what": "the library crashed / aborted (ASan, UBSan or _GLIBCXX_ASSERTIONS) while executing: " + c["op"],
                                "script": c["lines"]})
     for d in qr.divs:
         if d.script in crashed_scripts: continue     # already accounted for above
+        if d.script.startswith(FINDING_D15) and "QueryCF" in d.echo:
+            d15_seen = True                          # no abort (spare capacity behind the vector): garbage where the model says U
+            continue
         ctx.broken.append({"kind": "correspondence", "name": "lock-step iterator model / real iterators, component %s" % d.component,
                            "detail": dict(d.as_dict(), script_lines=getattr(d, "lines", None))})
         if len(ctx.broken) > 6: break
     if d8_seen and d8: ctx.known.append(d8.get("line") or "bc_iter() with face bottom-up incidences disabled indexes the empty incident-cell cache (abort under _GLIBCXX_ASSERTIONS)")
     if d11_seen and d11: ctx.known.append(d11.get("line") or "--end() / ++ to end then -- yields the last handle with valid()==false")
+    if d15_seen and d15: ctx.known.append(d15.get("line") or "cf_iter(c); --it; ++it; reads past the end of the cell's halfface vector (CellFaceIterImpl::operator-- early return)")
     if suppressed: ctx.notes.append({"suppressed_known_signatures": suppressed})
-    ctx.cov["corpus_findings_reproduced"] = {"D8": d8_seen, "D11": d11_seen}
+    ctx.cov["corpus_findings_reproduced"] = {"D8": d8_seen, "D11": d11_seen, "D15": d15_seen}
 
 def fill_coverage(ctx, qr):
     ctx.cov["evaluations"] += qr.qstats["accessor_lines"]
     ctx.cov["distinct_nontrivial"] += len(qr.distinct)
     crashed = {c["script"] for c in qr.crashes}
-    unexpected = [d for d in qr.divs if d.script not in crashed]
+    unexpected = [d for d in qr.divs if d.script not in crashed and not d.script.startswith(FINDING_D15)]
     ctx.cov["traces_validated_against_impl"] = qr.qstats["accessor_lines"] if not unexpected else 0
     ctx.cov["unexpected_divergences"] = len(unexpected)
     ctx.cov["query_stats"] = {k: v for k, v in qr.qstats.items() if k not in ("classes",)}
